@@ -401,7 +401,7 @@ type PhaseResult struct {
 
 // RunPhaseControlled: one generation, the given clients, under the controlled scheduler.
 func (e *Env) RunPhaseControlled(s *Scheduler, plans []ClientPlan) PhaseResult {
-	e.store.gate = s.Gate
+	e.store.SetGate(s.Gate)
 	workerCtx := s.worker.Ctx(context.Background())
 	g, err := e.NewGeneration(workerCtx)
 	if err != nil {
@@ -441,7 +441,7 @@ func (e *Env) RunPhaseControlled(s *Scheduler, plans []ClientPlan) PhaseResult {
 func (e *Env) RunPhaseFree(seed uint64, plans []ClientPlan, timeout time.Duration) (stalled string) {
 	f := &freeCtl{}
 	f.seed.Store(seed)
-	e.store.gate = f.Gate
+	e.store.SetGate(f.Gate)
 	base := verifhook.WithController(context.Background(), f)
 	g, err := e.NewGeneration(base)
 	if err != nil {
@@ -499,6 +499,9 @@ func execHTTP(ctx context.Context, g *Generation, op Op) *Result {
 		body["timestamp"] = op.Timestamp
 	}
 	b, _ := json.Marshal(body)
+	if op.Via == "bulk" {
+		return execBulk(ctx, g, op, b)
+	}
 	target := "/api/ledger/v2/ledger0/transactions"
 	if op.Via == "v1" {
 		target = "/api/ledger/ledger0/transactions"
@@ -555,4 +558,42 @@ func execHTTP(ctx context.Context, g *Generation, op Op) *Result {
 		cls = "http-" + fmt.Sprint(w.Code)
 	}
 	return &Result{Class: cls, Err: firstLine(e.ErrorCode + ": " + e.ErrorMessage)}
+}
+
+// execBulk: the posting request as the second CREATE_TRANSACTION element of a bulk whose first element is a decoy with
+// its own metadata, reference and timestamp (elements must not influence each other).
+func execBulk(ctx context.Context, g *Generation, op Op, element []byte) *Result {
+	decoy := fmt.Sprintf(`{"postings":[{"source":"world","destination":"decoy","amount":1,"asset":"USD"}],"metadata":{"req":"%s-decoy","decoy":"x"},"reference":"decoy-%s","timestamp":"2020-01-01T00:00:00Z"}`, op.Tag, op.Tag)
+	body := fmt.Sprintf(`[{"action":"CREATE_TRANSACTION","data":%s},{"action":"CREATE_TRANSACTION","ik":%q,"data":%s}]`, decoy, op.IK, element)
+	req, err := http.NewRequestWithContext(ctx, "POST", "http://ledger.test/api/ledger/v2/ledger0/_bulk?continueOnFailure=true", bytes.NewReader([]byte(body)))
+	if err != nil {
+		return &Result{Class: "other", Err: err.Error()}
+	}
+	req.Header.Set("Content-Type", "application/json")
+	w := httptest.NewRecorder()
+	g.http.ServeHTTP(w, req)
+	var out struct {
+		Data []struct {
+			ErrorCode        string          `json:"errorCode"`
+			ErrorDescription string          `json:"errorDescription"`
+			ResponseType     string          `json:"responseType"`
+			Data             json.RawMessage `json:"data"`
+		} `json:"data"`
+	}
+	if err := json.Unmarshal(w.Body.Bytes(), &out); err != nil || len(out.Data) != 2 {
+		return &Result{Class: "bulk-unreadable", Err: firstLine(w.Body.String())}
+	}
+	el := out.Data[1]
+	if el.ErrorCode != "" {
+		cls := map[string]string{"INSUFFICIENT_FUND": "insufficient", "CONFLICT": "conflict", "VALIDATION": "validation", "INTERNAL": "other"}[el.ErrorCode]
+		if cls == "" {
+			cls = "bulk-" + el.ErrorCode
+		}
+		return &Result{Class: cls, Err: firstLine(el.ErrorCode + ": " + el.ErrorDescription)}
+	}
+	var tx ledger.Transaction
+	if err := json.Unmarshal(el.Data, &tx); err != nil || tx.ID == nil {
+		return &Result{Class: "bulk-unreadable", Err: firstLine(string(el.Data))}
+	}
+	return &Result{OK: true, raw: &tx, Tx: txJ(&tx), TxID: tx.ID.String()}
 }
